@@ -1159,6 +1159,23 @@ Example roundtrip :
    [(DUdp src 40000, ex_resp ["Via: SIP/2.0/UDP 10.9.9.9:5070;rport=40000;branch=z9hG4bKabc;received=127.0.0.9"])]].
 Proof. vm_compute. reflexivity. Qed.
 
+(* FINDING (why C02_dest_udp / C02_independent_of_pins carry a condition on the table slot):
+   FailOverClientTransport.Send forgets its primary after ANY send error and nothing restores
+   it.  Here a provisional response of 65.6 kB arrives over TCP and is addressed to a UDP Via:
+   the datagram is too big, the send fails, and from then on every NON-final response for that
+   UDP destination is dropped - the same small response is relayed by a fresh proxy. *)
+Definition ringing (vias : list string) (body : bytes) : bytes :=
+  flat_map ln (["SIP/2.0 180 Ringing"] ++ vias ++ ["CSeq: 1 INVITE"]) ++
+  s2b "Content-Length: " ++ itoa (Z.of_nat (List.length body)) ++ crlf ++ crlf ++ body.
+Definition vs := [own; "Via: SIP/2.0/UDP 10.9.9.9:5070;branch=z9hG4bKabc"].
+Example udp_primary_forgotten_witness :
+  run all_fixed cfgh (init_state cfgh 0 [])
+      [EvTcpAccept 0 bk 5070; EvTcpData 0 (ringing vs (repeat "x"%char (656 * 100))); EvUdp 0 bk 5070 (ringing vs [])] =
+    [[]; []; []] /\
+  map (map fst) (run all_fixed cfgh (init_state cfgh 0 []) [EvUdp 0 bk 5070 (ringing vs [])]) =
+    [[DUdp (s2b "10.9.9.9") 5070]].
+Proof. split; vm_compute; reflexivity. Qed.
+
 (* the two layouts of the same three entries satisfy the hypotheses of C02_response_hop *)
 Definition e1 := "SIP/2.0/UDP 127.0.0.1:5060;branch=z9hG4bKpx".
 Definition e2 := "SIP/2.0/UDP 10.9.9.9:5070;rport=40000;received=127.0.0.9".
